@@ -343,6 +343,13 @@ class RefServerPeer:
             if cmd != b'AUTH':
                 return b'ERROR'
             parts = arg.split()
+            if parts and parts[0] == b'EXTERNAL' and self.ext_data and \
+                    b'EXTERNAL' not in self.accept:
+                # a server that asks for the identity first and only then
+                # finds it cannot accept it (no peer credentials over TCP)
+                self.mech = b'EXTERNAL-refused-after-data'
+                self.state = 'data'
+                return b'DATA'
             if not parts or parts[0] not in self.accept:
                 return self._rejected()
             self.mech = parts[0]
@@ -370,6 +377,8 @@ class RefServerPeer:
             if self.mech == b'EXTERNAL':
                 self.state = 'begin'
                 return b'OK ' + fakes.GUID
+            if self.mech == b'EXTERNAL-refused-after-data':
+                return self._rejected()
             try:
                 cc, h = binascii.unhexlify(arg.strip()).split()
                 want = binascii.hexlify(hashlib.sha1(
